@@ -39,16 +39,16 @@ func init() {
 		"math.Max":             extMathMax,
 		"math.Min":             extMathMin,
 
-		"strings.Index":       extStringsIndex,
-		"strings.Contains":    extStringsContains,
-		"strings.IndexByte":   extStringsIndexByte,
-		"strings.Count":       extStringsCount,
-		"strings.ToLower":     extStringsToLower,
-		"strings.ToUpper":     extStringsToUpper,
-		"strings.LastIndex":   extStringsLastIndex,
-		"strings.Clone":       func(fr *frame, a []value) value { return a[0] },
-		"strings.HasPrefix":   extStringsHasPrefix,
-		"strings.HasSuffix":   extStringsHasSuffix,
+		"strings.Index":                  extStringsIndex,
+		"strings.Contains":               extStringsContains,
+		"strings.IndexByte":              extStringsIndexByte,
+		"strings.Count":                  extStringsCount,
+		"strings.ToLower":                extStringsToLower,
+		"strings.ToUpper":                extStringsToUpper,
+		"strings.LastIndex":              extStringsLastIndex,
+		"strings.Clone":                  func(fr *frame, a []value) value { return a[0] },
+		"strings.HasPrefix":              extStringsHasPrefix,
+		"strings.HasSuffix":              extStringsHasSuffix,
 		"(*strings.Builder).String":      extBuilderString,
 		"(*strings.Builder).WriteString": extBuilderWriteString,
 		"(*strings.Builder).WriteByte":   extBuilderWriteByte,
@@ -92,7 +92,7 @@ func init() {
 			}
 			return out
 		},
-		"internal/stringslite.Index": extStringsIndex,
+		"internal/stringslite.Index":     extStringsIndex,
 		"internal/stringslite.IndexByte": extStringsIndexByte,
 		"internal/stringslite.HasPrefix": extStringsHasPrefix,
 		"internal/stringslite.HasSuffix": extStringsHasSuffix,
@@ -335,8 +335,10 @@ func extMathMin(fr *frame, a []value) value {
 }
 
 func extFloat64bits(fr *frame, a []value) value {
-	if _, ok := symF(a[0]); ok {
-		fr.i.abort(abortUnsupported, "math.Float64bits of symbolic float")
+	if sv, ok := symF(a[0]); ok {
+		// uninterpreted BITS64(x): equal floats terms give equal bit terms (enough for
+		// bit-identity comparisons of two computations); no other axiom is assumed
+		return fr.i.val(fr.i.st.UF("BITS64", SBV64, sv.T), types.Uint64)
 	}
 	return math.Float64bits(a[0].(float64))
 }
@@ -765,8 +767,76 @@ func extUnicodeMap(name string, f func(rune) rune) externalFn {
 
 // ---- fmt: opaque ----
 
+// nativeArgs converts variadic ...any arguments to Go values when they are all
+// concrete basic values (or errors / Stringers rendered through their method).
+func nativeArgs(fr *frame, args []value) ([]any, bool) {
+	out := make([]any, 0, len(args))
+	for _, x := range args {
+		it, ok := x.(iface)
+		if !ok {
+			return nil, false
+		}
+		if it.t == nil {
+			out = append(out, nil)
+			continue
+		}
+		v := it.v
+		if sv, isSym := v.(*Sym); isSym && sv.K == types.Bool {
+			v = fr.i.truth(sv, "fmt bool operand")
+		}
+		switch c := v.(type) {
+		case bool, int, int8, int16, int32, int64, uint, uint8, uint16, uint32, uint64, uintptr, float32, float64, string:
+			if named, isNamed := it.t.(*types.Named); isNamed {
+				// a named type with an Error/String method formats through it
+				if m := methodOf(fr.i, named, "Error"); m != nil {
+					out = append(out, fr.i.call(fr, 0, m, []value{v}))
+					continue
+				}
+				if m := methodOf(fr.i, named, "String"); m != nil && m.Signature.Params().Len() == 0 {
+					out = append(out, fr.i.call(fr, 0, m, []value{v}))
+					continue
+				}
+			}
+			out = append(out, c)
+		default:
+			if types.Implements(it.t, errorIface()) {
+				if m := methodOf(fr.i, it.t, "Error"); m != nil {
+					r := fr.i.call(fr, 0, m, []value{v})
+					if s, ok := r.(string); ok {
+						out = append(out, stringError(s))
+						continue
+					}
+				}
+			}
+			return nil, false
+		}
+	}
+	return out, true
+}
+
+type stringError string
+
+func (e stringError) Error() string { return string(e) }
+
 func extOpaqueString(name string) externalFn {
 	return func(fr *frame, a []value) value {
+		// exact when every operand is a concrete basic value
+		switch name {
+		case "fmt.Sprintf", "fmt.Errorf":
+			if format, ok := a[0].(string); ok {
+				if va, ok := a[1].([]value); ok || a[1] == nil {
+					if na, ok := nativeArgs(fr, va); ok {
+						return fmt.Sprintf(strings.ReplaceAll(format, "%w", "%v"), na...)
+					}
+				}
+			}
+		case "fmt.Sprint":
+			if va, ok := a[0].([]value); ok {
+				if na, ok := nativeArgs(fr, va); ok {
+					return fmt.Sprint(na...)
+				}
+			}
+		}
 		fr.i.opaqueStrings++
 		// deterministic opaque rendering that keeps concrete operands visible
 		var sb strings.Builder
